@@ -1,5 +1,7 @@
 """C18 - structurally malformed input is always rejected."""
 import itertools
+import tempfile
+import zlib
 
 from .. import cmodel as M
 from .. import gen
@@ -26,6 +28,7 @@ RULE = (
     "a token no C program contains or brackets that do not nest must be rejected; the committed corpus of earlier campaigns is replayed. "
     "Non-trivial: mutants whose first imbalance or injection lies after >= 10 valid tokens; distinct by construction "
     "per program."
+    ' Every fifth rejected text and every text with a non-ASCII character also goes in through parse_file(use_cpp=False) from a scratch file (class also_through_parse_file); U+FEFF, U+00A0 and NUL are among the injections. '
 )
 ASSUMPTIONS = ["base programs that the tree does not accept are skipped (acceptance is C01's claim)"]
 QUARANTINE = ()
@@ -33,7 +36,7 @@ QUARANTINE = ()
 OPEN = {"(": ")", "[": "]", "{": "}"}
 CLOSE = {")", "]", "}"}
 BR = "()[]{}"
-INJECT = ["@", "`", "\\", "/* c */", "// c\n", "'", '"', "\n#include <x>\n", "\n#define A 1\n", "\n#if 0\n", "\n#error x\n"]
+INJECT = ["@", "`", "\\", "\ufeff", "\xa0", "\x00", "/* c */", "// c\n", "'", '"', "\n#include <x>\n", "\n#define A 1\n", "\n#if 0\n", "\n#error x\n"]
 # directives other than #line / #pragma whose names merely resemble them; injected
 # at declaration/statement boundaries only (keeps the quick tier cheap)
 INJECT_DIRECTIVES = [
@@ -72,6 +75,31 @@ def text_of(strs):
     return "".join(out)
 
 
+def via_parse_file(src):
+    """the same text read from a file by pycparser.parse_file(use_cpp=False):
+    -> 'ast' | 'perr' | ('bad', detail) | None (text cannot be stored as it is)"""
+    import pycparser
+
+    if "\r" in src:
+        return None  # (reading a file in text mode turns a carriage return into a line end)
+    try:
+        data = src.encode("utf-8")
+    except UnicodeEncodeError:
+        return None
+    with tempfile.NamedTemporaryFile(suffix=".c", prefix="c18_") as f:
+        f.write(data)
+        f.flush()
+        try:
+            ast = pycparser.parse_file(f.name, use_cpp=False)
+        except pycparser.c_parser.ParseError:
+            return "perr"
+        except RecursionError:
+            return None
+        except Exception as e:  # noqa: BLE001 - this is the oracle
+            return ("bad", "%s: %s" % (type(e).__name__, str(e)[:200]))
+    return "ast" if ast is not None else ("bad", "parse_file returned None")
+
+
 def must_reject(strs, what, case, st):
     src = text_of(strs)
     out = parse_outcome(src, "f.c", ("f.c", "tab.h"))
@@ -80,6 +108,15 @@ def must_reject(strs, what, case, st):
         fail("accepted", case, src, "malformed input accepted (%s)" % what, "accepted:" + what.split(" ")[0])
     if out[0] == "bad":
         fail("not-parseerror", case, src, "malformed input (%s) raised %s instead of ParseError" % (what, out[2]), "notperr:" + out[1])
+    if zlib.crc32(src.encode("utf-8", "replace")) % 5 == 0 or any(ord(ch) > 126 for ch in src):
+        # every fifth text (and every one with an unusual character) also goes in through parse_file
+        got = via_parse_file(src)
+        if got is not None:
+            st.classes["also_through_parse_file"] += 1
+        if got == "ast":
+            fail("accepted", case, src, "malformed input accepted when read by parse_file(use_cpp=False) (%s)" % what, "accepted-file:" + what.split(" ")[0])
+        if isinstance(got, tuple):
+            fail("not-parseerror", case, src, "malformed input (%s) read by parse_file(use_cpp=False) raised %s" % (what, got[1]), "notperr-file")
 
 
 def mutate_program(strs, st, label, all_boundaries):
@@ -199,7 +236,7 @@ def directive_shard(arg):
     return st
 
 
-GLUE = ["\u0663", "\uff15", "\u0968", "\xb2", "\xe9", "\xaa", "\u2167", "@", "`", "\x00", "\x7f", "\xa0", "\u2028"]
+GLUE = ["\ufeff", "\u0663", "\uff15", "\u0968", "\xb2", "\xe9", "\xaa", "\u2167", "@", "`", "\x00", "\x7f", "\xa0", "\u2028"]
 
 
 def glue_program(strs, st, label):
